@@ -58,6 +58,25 @@ CHECKS["C15"] = ("pure", "exploration",
     "A pool with balance but no shares gives the balance to the first depositor (counted, not asserted).",
     "DESIGN.md 4/C15")
 
+CHECKS["C13"] = ("kv", "exploration",
+    "round-trip of served write logs + model-decided accept/reject of corrupted logs (rapid)",
+    "Generated chains of consecutive roots (state roots and IO roots incl. the two-hop empty->i->io pattern, both backends). For every pair the write log returned by "
+    "Commit and the one served by GetWriteLog (before and after finalization) must transform the model of the start root into the model of the end root and, applied to "
+    "a real tree at the start root, hash to the end root. A follower on the other backend applies the served log or a generated corruption through RootCache.Apply; the "
+    "reference model decides whether it must succeed (root present, contents equal) or fail (root absent, version's roots unchanged). One defect (two-hop order) was "
+    "found and repaired; its shrunk case runs as a regression.",
+    "A GetWriteLog error means 'not served' (counted per error text), not a violation; write logs are not discarded; the follower finalizes after each successful apply.",
+    "DESIGN.md 4/C13")
+CHECKS["C18"] = ("pure", "exploration",
+    "metamorphic mutation of known-good quote/collateral vectors + independent time/policy model (rapid) + exhaustive single-bit enumeration",
+    "For the repository's genuine SGX and TDX quotes with their collateral: generated byte-, field- and structure-level mutants of the quote, the TCB info, the QE identity and "
+    "the certificate chains (incl. forgeries re-signed with a harness key and cross-platform combinations) must be rejected or yield the identical verified identity and report "
+    "data with byte-identical signed regions; verification times across every validity boundary and policy settings around their boundary values are decided by an independent "
+    "model computed from the parsed collateral; every single bit of both quotes is flipped exhaustively; TCBBundle.Verify is checked against an independent model with perturbed "
+    "platform data.",
+    "Only the vectors in go/common/sgx/pcs/testdata are available as accepted starting points; Intel's root key is trusted as in the code under test.",
+    "DESIGN.md 4/C18")
+
 NOT_APPLICABLE = {
 }
 
